@@ -59,8 +59,9 @@ def random_dag_ts(rng, n_samples=None, n_internal=None, L=None, diploid=False,
         if historical and not diploid and rng.random() < 0.3:
             t = rng.choice([0.5, 1.5, 2.5])
         times.append(t)
+    ties = rng.random() < 0.3            # tied node times among the internal nodes
     for j in range(k):
-        times.append(float(j + 1))
+        times.append(float(j // 2 + 1) if ties else float(j + 1))
     flags = [tskit.NODE_IS_SAMPLE] * n + [0] * k
     if internal_samples:
         for j in range(n, n + k):
@@ -193,9 +194,12 @@ def add_mutations(rng, ts, k=None, nodes=None):
     # at most one mutation per (site, node): with two on the same branch the genotype depends on
     # the row order tskit's sort gives to ties (DESIGN.md section 9, K9), which is not what is tested
     used = set((int(m.site), int(m.node)) for m in ts.mutations())
+    bps = sorted(set(float(x) for x in ts.edges_left) | set(float(x) for x in ts.edges_right if x < L))
     for j in range(k):
-        if pos_site and rng.random() < 0.3:
+        if pos_site and rng.random() < 0.25:
             x = rng.choice(sorted(pos_site))
+        elif bps and rng.random() < 0.4:
+            x = rng.choice(bps)              # a site exactly ON a tree breakpoint / edge end
         else:
             x = float(rng.randrange(L))
         u = rng.choice(cand)
@@ -205,6 +209,45 @@ def add_mutations(rng, ts, k=None, nodes=None):
             pos_site[x] = tables.sites.add_row(x, "0")
         used.add((pos_site[x], u))
         tables.mutations.add_row(site=pos_site[x], node=u, derived_state=str(1 + j % 3))
+    return _finish(tables)
+
+
+def site_mutation_coincidence(rng, ts, nodes=None):
+    """make num_sites == num_mutations although the site -> mutation map is NOT one-to-one: some site
+    carries two mutations and as many mutation-free sites are added (a per-mutation position array and
+    ts.sites_position then have the same length but different content)"""
+    L = int(ts.sequence_length)
+    surplus = ts.num_mutations - ts.num_sites
+    if surplus <= 0 and ts.num_sites > 0:
+        # put a second mutation on an existing site
+        import tskit
+        tables = ts.dump_tables()
+        tables.mutations.time = np.full(ts.num_mutations, tskit.UNKNOWN_TIME)
+        cand = list(nodes) if nodes is not None else list(range(ts.num_nodes))
+        sites = list(ts.sites())
+        rng.shuffle(sites)
+        done = False
+        for st in sites:
+            here = set(int(m.node) for m in st.mutations)
+            free_nodes = [u for u in cand if u not in here]
+            if free_nodes:
+                tables.mutations.add_row(site=st.id, node=rng.choice(free_nodes), derived_state="9")
+                done = True
+                break
+        if not done:
+            return ts
+        ts = _finish(tables)
+        surplus = ts.num_mutations - ts.num_sites
+    if surplus <= 0:
+        return ts
+    used = set(float(x) for x in ts.sites_position)
+    free = [x for x in range(L) if float(x) not in used]
+    if len(free) < surplus:
+        return ts
+    rng.shuffle(free)
+    tables = ts.dump_tables()
+    for x in free[:surplus]:
+        tables.sites.add_row(position=float(x), ancestral_state="N")
     return _finish(tables)
 
 
@@ -230,10 +273,27 @@ def structural_variant(rng, ts, ops=None):
     return ts, ops
 
 
-def any_ts(rng, diploid=False, mutations=True, max_edges=120):
-    """the family's default mixture (bounded size: the models are evaluated inside Coq)"""
+def exotic_variant(rng, ts, kinds=None, frac=0.4, p=0.45):
+    """with probability `frac`, decorate ts with gen.exotic (valid-but-unusual inputs simulators never
+    produce: extra flag bits, ALL nodes renumbered, mutations above local roots, mutation-free sites --
+    half of the time exactly as many as there are surplus mutations, so num_sites == num_mutations --,
+    unknown mutation times, arbitrary allele states, populations).  Returns (ts, tag)."""
+    if rng.random() >= frac:
+        return ts, ""
+    ts2, applied = gen.exotic(rng, ts, kinds=kinds, p=p)
+    if not applied:
+        ts2, applied = gen.exotic(rng, ts, kinds=[rng.choice(list(kinds or gen.EXOTIC_KINDS))], p=1.0)
+    return ts2, ("+x:" + ",".join(applied)) if applied else ""
+
+
+def any_ts(rng, diploid=False, mutations=True, max_edges=120, exotic=True, exotic_kinds=None):
+    """the family's default mixture (bounded size: the models are evaluated inside Coq); ~40% of the
+    inputs get gen.exotic decorations"""
     while True:
         ts, kind = _any_ts(rng, diploid, mutations)
+        if exotic:
+            ts, tag = exotic_variant(rng, ts, kinds=exotic_kinds)
+            kind += tag
         if ts.num_edges <= max_edges and ts.num_mutations <= 150:
             return ts, kind
 
